@@ -61,10 +61,25 @@ E(name, cond) == IF cond THEN {name} ELSE {}
 IsHandler(ev) == ev \in {"OnCreated", "OnModified", "OnDeleted"}
 HeadIs(pre, k, nm) == pre.pending # <<>> /\ Head(pre.pending) = M!Ev(k, nm)
 
+(* When is a step a (re)synchronisation?  Not when the code's own flag says  *)
+(* so (a manager that swallows the deletion of .ready would never owe one): *)
+(* st.sh, kept by this specification from the events alone, is TRUE from a   *)
+(* handled deletion of .ready, a restart or a kill until the next handled   *)
+(* CREATED/MODIFIED of .ready - the manager has to be inactive exactly then, *)
+(* and that next .ready event has to synchronise.                           *)
+ShadowNext(pre, ev, args) ==
+  IF ev \in {"ManagerRestart", "NodeStart", "Crash"} THEN TRUE
+  ELSE IF ev = "OnDeleted" /\ args[1] = M!READY THEN TRUE
+  ELSE IF ev \in {"OnCreated", "OnModified"} /\ args[1] = M!READY THEN FALSE
+  ELSE pre.sh
+WithSh(rec, b) == [x \in DOMAIN rec \cup {"sh"} |-> IF x = "sh" THEN b ELSE rec[x]]
+
 Kind(pre, ev, args) ==
-  IF ev \in {"OnCreated", "OnModified"} /\ M!IsFirstSync(pre, args[1]) THEN "sync"
-  ELSE IF ev = "OnDeleted" /\ args[1] # M!READY /\ pre.active THEN "term"
+  IF ev \in {"OnCreated", "OnModified"} /\ args[1] = M!READY /\ pre.sh THEN "sync"
+  ELSE IF ev = "OnDeleted" /\ args[1] # M!READY /\ ~pre.sh THEN "term"
   ELSE "other"
+(* what the MODEL does for the step (conformance) goes by the logged flag   *)
+ModelSync(pre, ev, args) == ev \in {"OnCreated", "OnModified"} /\ M!IsFirstSync(pre, args[1])
 
 (* the order in which _synchronize met the containers of one instance is    *)
 (* not logged: take, per instance, an order that reproduces the observed    *)
@@ -99,7 +114,7 @@ CrashCoreOK(pre, args, post, D) ==
                   Slice(M!SyncInst([p EXCEPT !.fuel = k], a, o, D), a) = Slice(post, a)
 
 Expected(pre, ev, args, post, D) ==
-  CASE ev = "CacheCreate" -> M!DoCacheCreate(pre, args[1], args[2])
+  CASE ev \in {"CacheCreate", "CacheReplace"} -> M!DoCacheCreate(pre, args[1], args[2])
     [] ev = "CacheDelete" -> M!DoCacheDelete(pre, args[1])
     [] ev = "ReadyOn" -> M!DoReadyOn(pre)
     [] ev = "ReadyOff" -> M!DoReadyOff(pre)
@@ -112,11 +127,11 @@ Expected(pre, ev, args, post, D) ==
     [] ev = "CleanupEvent" -> M!DoCleanupEvent(pre)
     [] ev = "OnCreated" ->
          M!DoOnCreated(pre, args[1],
-                       IF Kind(pre, ev, args) = "sync"
+                       IF ModelSync(pre, ev, args)
                        THEN BestOrds([M!Pop(pre) EXCEPT !.active = TRUE], post, D) ELSE M!NoOrds, D)
     [] ev = "OnModified" ->
          M!DoOnModified(pre, args[1],
-                        IF Kind(pre, ev, args) = "sync"
+                        IF ModelSync(pre, ev, args)
                         THEN BestOrds([M!Pop(pre) EXCEPT !.active = TRUE], post, D) ELSE M!NoOrds, D)
     [] ev = "OnDeleted" -> M!DoOnDeleted(pre, args[1], D)
     [] OTHER -> pre
@@ -124,7 +139,8 @@ Expected(pre, ev, args, post, D) ==
 (* the event must be one the model enables in pre (the driver delivers only *)
 (* what happened); otherwise the line is a harness problem, not the code's  *)
 Enabled(pre, ev, args) ==
-  CASE ev = "CacheCreate" -> TRUE
+  CASE ev = "CacheCreate" -> args[1] \notin DOMAIN pre.cache
+    [] ev = "CacheReplace" -> args[1] \in DOMAIN pre.cache
     [] ev = "CacheDelete" -> args[1] \in DOMAIN pre.cache
     [] ev = "ReadyOn" -> TRUE
     [] ev = "ReadyOff" -> pre.ready
@@ -219,6 +235,8 @@ Verdict(pre, line, post) ==
                                /\ DOMAIN post.apps = DOMAIN pre.apps)
              \cup E("crashCut", ev = "Crash" /\ ~(post.running = pre.running /\ post.cleanup = pre.cleanup
                                                 /\ DOMAIN post.apps = DOMAIN pre.apps))
+             \cup E("flipReplace", kind = "sync" /\ \E a \in DOMAIN pre.running :
+                                      a \in DOMAIN pre.cache /\ pre.running[a] # M!CachedCont(pre, a))
              \cup E("sync", kind = "sync") \cup E("term", kind = "term")
              \cup E("twoGen", kind = "sync" /\ twoGen)
              \cup E("finished", kind = "sync" /\ \E c \in DOMAIN pre.apps : M!Finished(pre, c))
@@ -233,12 +251,13 @@ Verdict(pre, line, post) ==
 
 Init == /\ t \in DOMAIN Traces
         /\ i = 1
-        /\ st = Canon(Traces[t].lines[1].post)
+        /\ st = WithSh(Canon(Traces[t].lines[1].post), TRUE)
 
 Next == /\ i < Len(Traces[t].lines)
         /\ i' = i + 1
         /\ t' = t
-        /\ st' = Canon(Traces[t].lines[i + 1].post)
+        /\ st' = WithSh(Canon(Traces[t].lines[i + 1].post),
+                        ShadowNext(st, Traces[t].lines[i + 1].ev, Traces[t].lines[i + 1].args))
         /\ LET v == Verdict(st, Traces[t].lines[i + 1], st') IN
            PrintT(ToJson([tid |-> Traces[t].tid, i |-> i, fail |-> v.fail, ex |-> v.ex]))
 
